@@ -18,9 +18,12 @@ Input == <<RefOf(Forest, 1, <<>>)>>       \* only MR1 is evaluated; MR4 supplies
 Input4 == <<RefOf(Forest, 2, <<>>)>>
 
 DecOne == [t |-> "d", neg |-> FALSE, m |-> <<1>>, e |-> 0]
+DecN(n) == [t |-> "d", neg |-> FALSE, m |-> <<n>>, e |-> 0]
 BaseVars == [ints  |-> <<I(1), I(2), I(2), I(3)>>,
              mixed |-> <<I(1), S(<<97>>), DecOne, I(2), S(<<97>>)>>,
              none  |-> <<>>,
+             \* a Decimal BEFORE an Integer equal to it (and a second spelling of it behind): 2.0, 2, 'a', 2.00, 3, 3.0
+             decint |-> <<DecN(2), I(2), S(<<97>>), DecN(2), I(3), DecN(3)>>,
              \* items of different types that print alike: 1, '1', true, 'true', 1.0 (= 1), '1.0'
              looks |-> <<I(1), S(<<49>>), B(TRUE), S(<<116, 114, 117, 101>>), DecOne, S(<<49, 46, 48>>), I(1)>>]
 
@@ -55,6 +58,7 @@ Foci == <<
   [id |-> "bdate",  txt |-> "Patient.birthDate",            e |-> Fld(Pat, "birthDate"), twin |-> TRUE],
   [id |-> "family", txt |-> "Patient.name.family",          e |-> Fld(Fld(Pat, "name"), "family"), twin |-> TRUE],
   [id |-> "looks",  txt |-> "%looks",                       e |-> Var("looks"), twin |-> TRUE],
+  [id |-> "decint", txt |-> "%decint",                      e |-> Var("decint"), twin |-> TRUE],
   \* a focus whose FIRST item lacks an element the later ones have (family): projections of it start with nothing
   [id |-> "nameTail", txt |-> "Patient.name.tail()",        e |-> Call(Fld(Pat, "name"), "tail", <<>>), twin |-> TRUE] >>
 
@@ -161,8 +165,8 @@ Prog(c) ==
                                  ELSE [e |-> Call(Fld(ce, "extension"), "where", <<Criteria[17].e>>), txt |-> ct \o ".extension.where(url = 'http://hl7.org/fhir/StructureDefinition/patient-birthTime')"])
 
 VarsOf(c) ==
-  CASE c.shape = "setfn"  -> [ints |-> BaseVars.ints, mixed |-> BaseVars.mixed, none |-> BaseVars.none, looks |-> BaseVars.looks, d |-> DItems(c.f, DSpecs[c.a])]
-    [] c.shape = "fnVarN" -> [ints |-> BaseVars.ints, mixed |-> BaseVars.mixed, none |-> BaseVars.none, looks |-> BaseVars.looks, n |-> <<I(c.a)>>]
+  CASE c.shape = "setfn"  -> [ints |-> BaseVars.ints, mixed |-> BaseVars.mixed, none |-> BaseVars.none, decint |-> BaseVars.decint, looks |-> BaseVars.looks, d |-> DItems(c.f, DSpecs[c.a])]
+    [] c.shape = "fnVarN" -> [ints |-> BaseVars.ints, mixed |-> BaseVars.mixed, none |-> BaseVars.none, decint |-> BaseVars.decint, looks |-> BaseVars.looks, n |-> <<I(c.a)>>]
     [] OTHER -> BaseVars
 
 Outcome(c) == Eval(Prog(c).e, Env(VarsOf(c)), Input)
